@@ -1639,6 +1639,9 @@ func evaluate(r *ev.Run, c *caseResult) {
 	faultKind := func(k string) bool { return k == "ctx-cancel" || k == "store-fault" || k == "wp-store-fault" }
 	var openRej *line
 	preCall := map[string][]line{} // sub|ref|type -> completions recorded by another party at the hook right before the receiver call of an attempt
+	// sub|ref|type -> completions recorded by another party (the harness calling Notifier.Finished), at any position. The line is written before the
+	// call and before the recv line of the attempt it belongs to: a process killed right then leaves the completion without that recv line.
+	extFin := map[string]int{}
 	foldRej := func(b line) {
 		if b.f[3] == "wp-store-fault" {
 			wpBegins[b.f[1]] = append(wpBegins[b.f[1]], line{b.phase, b.seq, []string{"wp-begin", b.f[1], "rej"}})
@@ -1682,6 +1685,7 @@ func evaluate(r *ev.Run, c *caseResult) {
 		case "fin-ext":
 			r.Count("completions_recorded_by_another_party", 1)
 			r.Distinct("positions_of_completions_recorded_by_another_party", f[4])
+			extFin[f[1]+"|"+f[2]+"|"+f[3]]++
 			if f[4] == "before-receiver-call" {
 				preCall[f[1]+"|"+f[2]+"|"+f[3]] = append(preCall[f[1]+"|"+f[2]+"|"+f[3]], l)
 			}
@@ -1924,7 +1928,9 @@ func evaluate(r *ev.Run, c *caseResult) {
 				viol("vanished/"+typ+"/"+c.first, fmt.Sprintf("%s event of admitted %s was never delivered to persistent subscriber %s and is not on its shelf", typ, ref, s.Name), ref, s.Name)
 				continue
 			}
-			if !onShelf && !anyOK {
+			if !onShelf && !anyOK && extFin[k] > 0 {
+				r.Count("events_completed_by_another_party_before_the_kill_without_a_logged_receiver_call", 1)
+			} else if !onShelf && !anyOK {
 				viol("vanished-undelivered/"+typ, fmt.Sprintf("%s event of %s left the shelf of %s although the subscriber never reported completion (results: %s)", typ, ref, s.Name, results(ds)), ref, s.Name)
 			}
 			// an event that comes into being while the restarted process has not finished Run() for its subscriber yet (a receiver of
